@@ -1,5 +1,6 @@
 import Walrus.Proofs.Body
 import Walrus.Builder
+import Walrus.Proofs.Locals
 
 /-!
 # C15 — IR built through the builder API is emitted faithfully
@@ -137,6 +138,38 @@ theorem params_at_their_positions (args : List Nat) (tyOf : Nat → String) (use
     assoc (emitLocals args tyOf used).2 args[k] = some k := by
   simp only [emitLocals]
   exact assoc_zipIdx_args args _ hn k hk
+
+/-- **the local map is total**: every parameter and every local the body mentions has an index -/
+theorem every_used_local_has_an_index (args : List Nat) (tyOf : Nat → String) (used : List Nat) (l : Nat)
+    (h : l ∈ args ∨ l ∈ used) : ∃ i, assoc (emitLocals args tyOf used).2 l = some i :=
+  local_map_total args tyOf used l h
+
+/-- **the local map is injective**: two locals never share an emitted index -/
+theorem no_two_locals_share_an_index (args : List Nat) (tyOf : Nat → String) (used : List Nat) (a b i : Nat)
+    (ha : assoc (emitLocals args tyOf used).2 a = some i) (hb : assoc (emitLocals args tyOf used).2 b = some i) :
+    a = b :=
+  local_map_injective args tyOf used a b i ha hb
+
+/-- **every local lands in a slot of its own type**: a parameter at its position; any other local
+    after the parameters, at an index whose declaration (the expanded `(count, type)` groups that
+    are written into the body) is the local's type — for the seven value types (`knownTy`) -/
+theorem every_local_lands_in_a_slot_of_its_type (args : List Nat) (tyOf : Nat → String) (used : List Nat)
+    (hk : ∀ l ∈ used, knownTy (tyOf l)) (l i : Nat) (h : assoc (emitLocals args tyOf used).2 l = some i) :
+    (l ∈ args ∧ args[i]? = some l) ∨
+    (l ∉ args ∧ l ∈ used ∧ args.length ≤ i ∧
+      (expandLocals (emitLocals args tyOf used).1)[i - args.length]? = some (tyOf l)) := by
+  rcases local_index_spec args tyOf used hk l i h with h | ⟨h1, h2, h3, _, h5⟩
+  · exact Or.inl h
+  · exact Or.inr ⟨h1, h2, h3, h5⟩
+
+/-- the declared groups are exactly the types of the used non-parameter locals in emission order -/
+theorem declared_locals_are_the_used_ones (args : List Nat) (tyOf : Nat → String) (used : List Nat)
+    (hk : ∀ l ∈ used, knownTy (tyOf l)) :
+    expandLocals (emitLocals args tyOf used).1 = (emitOrder args tyOf used).map tyOf ∧
+    ∀ x, x ∈ emitOrder args tyOf used ↔ x ∈ used ∧ x ∉ args :=
+  ⟨emitLocals_decls args tyOf used hk, emitOrder_mem args tyOf used⟩
+
+example : knownTy "i32" ∧ knownTy "externref" ∧ ¬ knownTy "?" := by unfold knownTy; decide
 
 /-- non-vacuity and a worked instance: two parameters, three used locals of two types -/
 example : emitLocals [10, 11] (fun l => if l = 12 then "f64" else if l = 14 then "i32" else "f64") [10, 12, 13, 14]
